@@ -2,7 +2,7 @@
 From Coq Require Import NArith List Bool Sorting.Permutation Sorting.Sorted.
 From DV Require Import Base.Outcome Base.Bytes Base.Lex Base.Names C11.Sha C17.Model
   C12.Gen C12.Model C12.Digest C12.Spec C12.ProofsSort C12.ProofsSigned C12.ProofsInj
-  C12.ProofsKey C12.ProofsCrypto C12.KeyModel C12.ProofsRsa C12.ZoneModel C12.ProofsZone C12.ProofsC04 C12.ProofsC05 C12.ProofsZoneSorted C12.SortedModel C12.ProofsSortedRecords C12.ProofsWholeZone.
+  C12.ProofsKey C12.ProofsCrypto C12.KeyModel C12.ProofsRsa C12.ZoneModel C12.ProofsZone C12.ProofsC04 C12.ProofsC05 C12.ProofsZoneSorted C12.SortedModel C12.ProofsSortedRecords C12.ProofsWholeZone C12.ProofsWholeZone3.
 Import ListNotations.
 Local Open Scope N_scope.
 
@@ -329,3 +329,35 @@ Theorem C12_whole_zone_authoritative_rrsets_signed : forall apex dnskey k l coll
             sigs = flat_map (fun x => repeat x k) (sign_zone apex 1 coll).
 Proof. exact whole_zone_authoritative_rrsets_signed. Qed.
 Print Assumptions C12_whole_zone_authoritative_rrsets_signed.
+
+Theorem C12_whole_zone_nsec3 : forall (H : bytes -> bytes) (owner_of : bytes -> name) apex c k l coll sigs,
+  whole_zone_nsec3 H owner_of apex c k l = Ok (coll, sigs) ->
+  exists n3,
+    C13.Model.generate_nsec3s H apex c (C13.Model.strip (C13.Model.sorted_records l)) = Ok n3 /\
+    coll = signed_collection3 owner_of apex c l n3 /\
+    sigs = spec_zone apex k coll /\
+    sigs = flat_map (fun x => repeat x k) (sign_zone apex 1 coll) /\
+    (forall o t, In (o, t) sigs -> t <> 46 /\ C13.Model.has_type coll o t) /\
+    (forall x, (exists r, In r n3 /\ C13.Model.h_owner r = x) <->
+       (exists n, (C13.ProofsN3d.included apex (C13.Model.strip (C13.Model.sorted_records l)) (C13.ProofsN3e.optout_excl c) n \/
+                   C13.ProofsN3d.ent3 apex (C13.Model.strip (C13.Model.sorted_records l)) (C13.ProofsN3e.optout_excl c) n) /\
+                  x = C13.Model.nsec3_hash H n (C13.Model.c_iters c) (C13.Model.c_salt c))) /\
+    (StronglySorted (fun a b => lex_cmp (C13.Model.h_owner a) (C13.Model.h_owner b) = Lt) n3 /\ n3 <> [] /\
+     map C13.Model.h_next n3 = tl (map C13.Model.h_owner n3) ++ [hd [] (map C13.Model.h_owner n3)]) /\
+    (forall o t, C13.Model.has_type coll o t <->
+       C13.Model.has_type (C13.Model.strip l) o t \/
+       (t = 51 /\ name_eqb apex o = true) \/
+       (t = 50 /\ exists r, In r n3 /\ name_eqb (owner_of (C13.Model.h_owner r)) o = true)).
+Proof. exact whole_zone_nsec3_signed. Qed.
+Print Assumptions C12_whole_zone_nsec3.
+
+Theorem C12_whole_zone_nsec3_authoritative_rrsets_signed :
+  forall (H : bytes -> bytes) (owner_of : bytes -> name) apex c k l coll sigs pre g post t,
+  whole_zone_nsec3 H owner_of apex c k l = Ok (coll, sigs) -> (0 < k)%nat ->
+  filter (in_zoneb apex) (owner_groups coll) = pre ++ g :: post ->
+  below_earlier_cut apex pre g = false ->
+  In t (map snd g) ->
+  rfc_signed_here (is_zone_cut apex g) (name_eqb (group_owner g) apex) t = true ->
+  exists o, In (o, t) sigs.
+Proof. exact whole_zone3_authoritative_rrsets_signed. Qed.
+Print Assumptions C12_whole_zone_nsec3_authoritative_rrsets_signed.
